@@ -277,6 +277,16 @@ def fixed_programs():
                 ["NewRecord", ["d", "0"], "Entity", ["S", "ex:e"], [[["S", "prov:label"], ["str", "labelled"]], [["S", "ex:k"], ["int", "1"]]]],
                 ["NewRecord", ["d", "0"], "Usage", ["S", "ex:u"], [[["Q", "prov", PROVU, "activity"], ["str", "ex:a"]], [["Q", "prov", PROVU, "entity"], ["str", "ex:e"]],
                                                                  [["S", "prov:label"], ["str", "used"]]]]])
+    # the same without labels, types and values on most records: exporters that fall back to the original document read
+    # attributes the records do not have
+    out.append([["NewDoc"], ["AddNs", ["d", "0"], "ex", EXU],
+                ["NewRecord", ["d", "0"], "Activity", ["S", "ex:a"], [[["Q", "prov", PROVU, "startTime"], ["time", "2012", "3", "31", "9", "21", "0", "0", "none"]]]],
+                ["NewRecord", ["d", "0"], "Activity", ["S", "ex:a"], [[["Q", "prov", PROVU, "startTime"], ["time", "2012", "3", "31", "10", "21", "0", "0", "none"]]]],
+                ["NewRecord", ["d", "0"], "Entity", ["S", "ex:e"], [[["S", "ex:k"], ["int", "1"]]]],
+                ["NewRecord", ["d", "0"], "Agent", ["S", "ex:ag"], []],
+                ["NewBundle", "0", ["S", "ex:b"]],
+                ["NewRecord", ["b", "0", "0"], "Entity", ["S", "ex:e2"], []],
+                ["NewRecord", ["d", "0"], "Usage", ["S", "ex:u"], [[["Q", "prov", PROVU, "activity"], ["str", "ex:a"]], [["Q", "prov", PROVU, "entity"], ["str", "ex:e"]]]]])
     return out
 
 
